@@ -1,0 +1,12 @@
+//go:build verif
+
+package recordio
+
+// VerifSetSeekLen sets the scan window of a memory mapped reader (verification hook, build tag verif only).
+func VerifSetSeekLen(r ReadAtI, n int) bool {
+	if m, ok := r.(*MMapReader); ok {
+		m.seekLen = n
+		return true
+	}
+	return false
+}
